@@ -53,6 +53,8 @@ MODES = ['logical', 'raw', 'rgb']
 ALL9 = ['time', 'duration', 'hue', 'saturation', 'brightness', 'red', 'green',
         'blue', 'kelvin']
 FMT = 'printf "' + ' '.join('{' + r + '!r}' for r in ALL9) + '"'
+NO_TIME = [r for r in ALL9 if r != 'time']
+FMT_NO_TIME = 'printf "' + ' '.join('{' + r + '!r}' for r in NO_TIME) + '"'
 REWRITE = {
     ('logical', 'raw'): {'time', 'duration', 'hue', 'saturation', 'brightness'},
     ('raw', 'logical'): {'time', 'duration', 'hue', 'saturation', 'brightness'},
@@ -98,7 +100,8 @@ def registers(rng, mode):
 
 def setup_text(mode, regs):
     return 'units {} '.format(mode) + ' '.join(
-        '{} {}'.format(k, lit(v)) for k, v in regs.items())
+        '{} {}'.format(k, v if isinstance(v, str) else lit(v))
+        for k, v in regs.items())
 
 
 def transmitted(run):
@@ -127,13 +130,13 @@ def colours_agree(a, b, rgb_involved):
     return False
 
 
-def parse_regs(text):
+def parse_regs(text, names=ALL9):
     vals = text.split(' ')
-    if len(vals) != 9:
+    if len(vals) != len(names):
         return None
     try:
         return {k: (float(v) if '.' in v or 'e' in v else int(v))
-                for k, v in zip(ALL9, vals)}
+                for k, v in zip(names, vals)}
     except ValueError:
         return None
 
@@ -158,6 +161,7 @@ def same_raw(a, b, rgb_involved):
 
 def check_switch(ctx, frm, to, before, after, replay, script):
     """register rewrite table for one `units` statement"""
+    ALL9 = list(before)         # (without `time` while it holds a pattern)
     if frm == to:
         for k in ALL9:
             if repr(before[k]) != repr(after[k]):
@@ -180,6 +184,8 @@ def check_switch(ctx, frm, to, before, after, replay, script):
     if 'time' in rewritten:
         f = 1000 if to == 'raw' else F(1, 1000)
         for k in ('time', 'duration'):
+            if k not in before:
+                continue
             want = oracle.frac(before[k]) * f
             tol = 1 if to == 'raw' else F(1, 1000)
             if abs(oracle.frac(after[k]) - want) > tol:
@@ -207,11 +213,39 @@ def one_case(ctx, i, rng):
     m0 = MODES[i % 3]
     chain = CHAINS[(i // 3) % len(CHAINS)]
     regs = registers(rng, m0)
+    fmt, names = FMT, ALL9
+    if rng.random() < 0.12:
+        # the time register holds a time-of-day pattern during the switches
+        del regs['time']
+        regs['time at'] = '8:00'
+        fmt, names = FMT_NO_TIME, NO_TIME
+        ctx.count('cases_with_pattern_in_time_register')
     setup = setup_text(m0, regs)
     tail = ' set "A" on "A" wait'
     script_a = setup + tail
-    script_b = setup + ' ' + FMT + ''.join(
-        ' units {} {}'.format(m, FMT) for m in chain) + tail
+    # a switch may be reached through a routine, a branch or a loop body, so
+    # that the `units` command executed last is not the one written last
+    defs, steps = [], []
+    for k, m in enumerate(chain):
+        form = rng.choice(['plain', 'plain', 'plain', 'routine', 'if', 'loop',
+                           'dead-branch'])
+        if form == 'routine':
+            defs.append('define sw{} begin units {} end'.format(k, m))
+            steps.append('sw{}'.format(k))
+        elif form == 'if':
+            steps.append('if {{ 1 }} begin units {} end'.format(m))
+        elif form == 'loop':
+            steps.append('repeat 1 begin units {} end'.format(m))
+        elif form == 'dead-branch':
+            other = rng.choice(MODES)
+            steps.append('if {{ 0 }} begin units {} end units {}'.format(
+                other, m))
+        else:
+            steps.append('units ' + m)
+        if form != 'plain':
+            ctx.count('switches_through_' + form)
+    script_b = ' '.join(defs + [setup, fmt]) + ''.join(
+        ' {} {}'.format(s, fmt) for s in steps) + tail
     replay = {'script_a': script_a, 'script_b': script_b}
     modes = [m0] + list(chain)
     real = any(x != y for x, y in zip(modes, modes[1:]))
@@ -252,7 +286,7 @@ def one_case(ctx, i, rng):
         return
     ctx.count('pairs_agree')
     outs = [e[2] for e in rb.log if e[0] == 'out' and e[1] == 'out']
-    snaps = [parse_regs(o) for o in outs]
+    snaps = [parse_regs(o, names) for o in outs]
     if len(snaps) != len(chain) + 1 or None in snaps:
         ctx.violation('table:unreadable', 'register print-outs {} | {}'.format(
             outs[:3], script_b), replay)
